@@ -529,17 +529,33 @@ impl<I: Ip> PeerMap<I> {
                     Self::Large(peer_map) => peer_map.insert(peer_map_key, peer),
                 }
 
-                if config.statistics.peer_clients && opt_removed_peer.is_none() {
-                    statistics_sender
-                        .try_send(StatisticsMessage::PeerAdded(request.peer_id))
-                        .expect("statistics channel should be unbounded");
+                if config.statistics.peer_clients {
+                    // The peer at this address may have been stored with
+                    // another peer id: count the stored id out and the new
+                    // one in
+                    let opt_removed_peer_id = opt_removed_peer.map(|peer| peer.peer_id);
+
+                    if opt_removed_peer_id != Some(request.peer_id) {
+                        if let Some(removed_peer_id) = opt_removed_peer_id {
+                            statistics_sender
+                                .try_send(StatisticsMessage::PeerRemoved(removed_peer_id))
+                                .expect("statistics channel should be unbounded");
+                        }
+
+                        statistics_sender
+                            .try_send(StatisticsMessage::PeerAdded(request.peer_id))
+                            .expect("statistics channel should be unbounded");
+                    }
                 }
             }
             PeerStatus::Stopped => {
-                if config.statistics.peer_clients && opt_removed_peer.is_some() {
-                    statistics_sender
-                        .try_send(StatisticsMessage::PeerRemoved(request.peer_id))
-                        .expect("statistics channel should be unbounded");
+                if config.statistics.peer_clients {
+                    // Use the stored peer id, the request may carry another one
+                    if let Some(removed_peer) = opt_removed_peer {
+                        statistics_sender
+                            .try_send(StatisticsMessage::PeerRemoved(removed_peer.peer_id))
+                            .expect("statistics channel should be unbounded");
+                    }
                 }
             }
         };
